@@ -42,6 +42,7 @@ ASSUMPTIONS = [
     "class-level facts (TypeObject nominal relation incl. protocol checks, generic bases from typeshed) enter the model as a table regenerated from the live tree (Generated/ClassTable.lean); obligations over the table are re-checked by the kernel each run",
     "TypedDict, Callable, TypeVar-bearing and mock types are outside the Lean model (TypedDict membership is searched on the implementation only)",
     "NewType membership = exact supertype class; promotion applies under type[...] (DESIGN §6/C03 oracle decisions)",
+    "objects with an IntEnum member nested in a container are not generated: Python has (IE.X,) == (1,), the Lean object equality keeps enum members apart from ints (harness/common/gen_values.py _no_nested_intenum)",
 ]
 TRUSTED = ["Spec/Mem.lean (mem) is validated against a CPython-isinstance based reference on every run (stream spec)"]
 
